@@ -130,6 +130,145 @@ func decodeInto(format string, bs []byte, k kindT, named bool) (o outcome) {
 	return
 }
 
+// ---- element destinations: the same number as an element of a container ----
+//
+// []T, [1]T, map[string]T, map[T]bool (the number is the key) and *T go through the generated
+// fast paths / the builtin type switch, whose narrowing code is separate from the scalar one.
+// The container framing around the number is taken from the real encoder once per format
+// (encode the container around a distinctive placeholder, cut the placeholder's bytes out).
+
+var shapes = []string{"slice", "array", "mapval", "mapkey", "ptr"}
+
+type frame struct{ pre, suf []byte }
+
+var frames = map[string]frame{}
+
+const placeholder int64 = 0x0102030405060708
+
+func frameOf(format, shape string) (frame, bool) {
+	key := format + "/" + shape
+	if f, ok := frames[key]; ok {
+		return f, f.pre != nil
+	}
+	var v interface{}
+	switch shape {
+	case "slice":
+		v = []int64{placeholder}
+	case "array":
+		v = [1]int64{placeholder}
+	case "mapval":
+		v = map[string]int64{"a": placeholder}
+	case "mapkey":
+		v = map[int64]bool{placeholder: true}
+	default:
+		frames[key] = frame{pre: []byte{}, suf: []byte{}}
+		return frames[key], true
+	}
+	var full, elem []byte
+	e1 := codec.NewEncoderBytes(&full, handle(format)).Encode(v)
+	e2 := codec.NewEncoderBytes(&elem, handle(format)).Encode(placeholder)
+	i := strings.Index(string(full), string(elem))
+	if e1 != nil || e2 != nil || i < 0 || strings.Count(string(full), string(elem)) != 1 {
+		frames[key] = frame{}
+		return frame{}, false
+	}
+	f := frame{pre: append([]byte{}, full[:i]...), suf: append([]byte{}, full[i+len(elem):]...)}
+	frames[key] = f
+	return f, true
+}
+
+func containerType(shape string, t reflect.Type) reflect.Type {
+	switch shape {
+	case "slice":
+		return reflect.SliceOf(t)
+	case "array":
+		return reflect.ArrayOf(1, t)
+	case "mapval":
+		return reflect.MapOf(reflect.TypeOf(""), t)
+	case "mapkey":
+		return reflect.MapOf(t, reflect.TypeOf(true))
+	}
+	return reflect.PtrTo(t)
+}
+
+// decodeElem decodes the framed number into the container shape and returns the element.
+func decodeElem(format, shape string, bs []byte, k kindT) (o outcome, framed bool) {
+	f, ok := frameOf(format, shape)
+	if !ok {
+		return outcome{}, false
+	}
+	wire := append(append(append([]byte{}, f.pre...), bs...), f.suf...)
+	rv := reflect.New(containerType(shape, k.builtin))
+	var err error
+	func() {
+		defer func() {
+			if r := recover(); r != nil {
+				err = fmt.Errorf("panic: %v", r)
+			}
+		}()
+		err = codec.NewDecoderBytes(wire, handle(format)).Decode(rv.Interface())
+	}()
+	if err != nil {
+		return outcome{}, true
+	}
+	c := rv.Elem()
+	var e reflect.Value
+	switch shape {
+	case "slice", "array":
+		if c.Len() != 1 {
+			return outcome{}, true
+		}
+		e = c.Index(0)
+	case "mapval":
+		if c.Len() != 1 {
+			return outcome{}, true
+		}
+		e = c.MapIndex(c.MapKeys()[0])
+	case "mapkey":
+		if c.Len() != 1 {
+			return outcome{}, true
+		}
+		e = c.MapKeys()[0]
+	default:
+		if c.IsNil() {
+			return outcome{}, true
+		}
+		e = c.Elem()
+	}
+	o.ok = true
+	switch k.class {
+	case "int":
+		o.z = big.NewInt(e.Int())
+	case "uint":
+		o.z = new(big.Int).SetUint64(e.Uint())
+	default:
+		if k.bits == 32 {
+			o.bits = uint64(math.Float32bits(float32(e.Float())))
+		} else {
+			o.bits = math.Float64bits(e.Float())
+		}
+	}
+	return o, true
+}
+
+func sameOutcome(k kindT, a, b outcome) bool {
+	if a.ok != b.ok {
+		return false
+	}
+	if !a.ok {
+		return true
+	}
+	if k.class == "float" {
+		if k.bits == 32 {
+			fa, fb := math.Float32frombits(uint32(a.bits)), math.Float32frombits(uint32(b.bits))
+			return a.bits == b.bits || (fa != fa && fb != fb)
+		}
+		fa, fb := math.Float64frombits(a.bits), math.Float64frombits(b.bits)
+		return a.bits == b.bits || (fa != fa && fb != fb)
+	}
+	return a.z.Cmp(b.z) == 0
+}
+
 // ---- exact arithmetic helpers ----
 
 func pow2(k uint) *big.Int { return new(big.Int).Lsh(big.NewInt(1), k) }
@@ -197,7 +336,7 @@ func magClass(v *big.Rat) string {
 }
 
 // judge applies the property to one (source, destination, outcome).
-func judge(s *source, k kindT, o outcome, named bool, sum *vh.Summary, idx int) {
+func judge(s *source, k kindT, o outcome, path string, sum *vh.Summary, idx int) {
 	if !o.ok {
 		return // an error is always allowed
 	}
@@ -224,10 +363,6 @@ func judge(s *source, k kindT, o outcome, named bool, sum *vh.Summary, idx int) 
 	if s.isInt {
 		srcKind = "int"
 	}
-	path := "builtin"
-	if named {
-		path = "named"
-	}
 	cj := map[string]interface{}{"format": s.format, "repr": s.repr, "bytes": vh.Hex(s.bytes), "dest": k.name, "path": path, "case_index": idx}
 	if s.lit != "" {
 		cj["literal"] = s.lit
@@ -241,7 +376,11 @@ func judge(s *source, k kindT, o outcome, named bool, sum *vh.Summary, idx int) 
 		if i := strings.Index(rf, ":"); i >= 0 && s.format != "json" {
 			rf = rf[:i] // descriptor family without the width
 		}
-		cls := fmt.Sprintf("%s:%s:%s%s->%s:%s", s.format, rf, srcKind, mc, k.class, sym)
+		dest := k.class
+		if path != "builtin" && path != "named" {
+			dest = path + "-of-" + k.class // element destinations have their own narrowing code
+		}
+		cls := fmt.Sprintf("%s:%s:%s%s->%s:%s", s.format, rf, srcKind, mc, dest, sym)
 		sum.FailC("oracle", cls, what, cj)
 	}
 	if k.class != "float" {
@@ -644,9 +783,10 @@ func main() {
 	nRand := flag.Int("rand", 200, "random integer/float values per run in addition to the boundary set")
 	nJSON := flag.Int("json", 300, "random json literals in addition to the boundary set")
 	allHalf := flag.Bool("allhalf", false, "sweep all 65536 float16 patterns (cbor)")
+	elems := flag.Bool("elems", true, "also decode every source as an element of []T, [1]T, map[string]T, map[T]bool and *T")
 	flag.Parse()
 	r := vh.NewRng(vh.SeedFromEnv())
-	sum := vh.NewSummary("cross product: wire representation (every width the value fits in, built byte by byte) x 13 destination kinds x 2 decode paths (builtin *T switch, named type via reflection) x boundary values {0, +-1, +-(2^k-1), +-2^k, +-(2^k+1) for k in 7,8,15,16,31,32,52,53,62,63,64, -2^64, fractions, 1e30, +-Inf, NaN, -0.0, float32/float64 limits, subnormals} plus seeded random values; json: decimal/exponent/fraction literal forms of the same integers and random literals. non-trivial = the destination is not the source's own type/width; distinct by (format, representation, magnitude class, sign, destination, outcome)")
+	sum := vh.NewSummary("cross product: wire representation (every width the value fits in, built byte by byte) x 13 destination kinds x 7 decode paths (builtin *T switch, named type via reflection, element of []T, [1]T, map[string]T, key of map[T]bool, *T: the generated fast paths) x boundary values {0, +-1, +-(2^k-1), +-2^k, +-(2^k+1) for k in 7,8,15,16,31,32,52,53,62,63,64, -2^64, fractions, 1e30, +-Inf, NaN, -0.0, float32/float64 limits, subnormals} plus seeded random values; json: decimal/exponent/fraction literal forms of the same integers and random literals. non-trivial = the destination is not the source's own type/width; distinct by (format, representation, magnitude class, sign, destination, outcome)")
 
 	ints := boundaryInts()
 	floats := boundaryFloats()
@@ -720,8 +860,28 @@ func main() {
 		for _, k := range kinds {
 			o := decodeInto(s.format, s.bytes, k, false)
 			on := decodeInto(s.format, s.bytes, k, true)
-			judge(s, k, o, false, sum, idx)
-			judge(s, k, on, true, sum, idx)
+			judge(s, k, o, "builtin", sum, idx)
+			judge(s, k, on, "named", sum, idx)
+			if *elems {
+				for _, sh := range shapes {
+					oe, framed := decodeElem(s.format, sh, s.bytes, k)
+					if !framed {
+						continue
+					}
+					judge(s, k, oe, sh, sum, idx)
+					// json object keys are quoted strings: only the oracle applies there
+					if !(s.format == "json" && sh == "mapkey") && !sameOutcome(k, o, oe) {
+						sum.FailC("oracle", s.format+":element-differs-from-scalar:"+sh+"-of-"+k.class,
+							"the same number decodes differently as a container element (fast path / type switch) than as a scalar",
+							map[string]interface{}{"format": s.format, "bytes": vh.Hex(s.bytes), "dest": k.name, "shape": sh, "literal": s.lit})
+					}
+					oce := "err"
+					if oe.ok {
+						oce = "ok"
+					}
+					sum.Count(s.format+".elem."+sh+"."+oce, fmt.Sprintf("%s/%s/%s/%s/%s", s.format, s.repr, sh, k.name, oce))
+				}
+			}
 			same := o.ok == on.ok && (!o.ok || (k.class == "float" && (o.bits == on.bits)) || (k.class != "float" && o.z.Cmp(on.z) == 0))
 			if !same {
 				sum.FailC("oracle", s.format+":paths-differ->"+k.name, "the builtin-pointer path and the reflective path disagree",
